@@ -128,6 +128,11 @@ def _shape(run, prog, W):
                       f"{ir.show_nl(v)[:180]}", "{i: y.flatten()[i] for i in range(n)}")
             many_seen = True
             continue
+        if v[0] == "new" and v[2] == "dict" and len(v[3]) == 1 and v[3][0][0] == "fn" and v[3][0][1] == "enumerate" and \
+                len(v[3][0][2]) == 1 and any(_is_flat(v[3][0][2][0], a) for a in (p, ("fn", "asarray", (p,)))):
+            run.ok("SHAPE", "vector", "dict(enumerate(flattened output))")
+            many_seen = True
+            continue
         if v[0] in ("tryphi",) or v == p:
             continue
         run.fail("SHAPE", "form", f"{s.path}:{ev.line}", fq, f"returns {ir.show_nl(v)[:100]}",
@@ -161,31 +166,51 @@ def _inputs(run, prog, W):
     run.analysed_fn(fq2)
     _, fn2 = prog.find_method(W, "convert_2d_input_to_arr")
     xs = ("param", [a.arg for a in fn2.args.args][1])
-    apps = [(ev, ctx) for ev, ctx in walk(s2.events) if isinstance(ev, ir.Mut) and ev.method == "append"]
-    ok2 = len(apps) == 1 and len(apps[0][1].loops) == 1 and not apps[0][1].guards and \
-        apps[0][1].loops[0].iter in (("fn", "range", (("fn", "len", (xs,)),)), xs)
-    why = ""
+    from .algebra import arms
+    from .boolalg import holds, excluded
+    from .common import list_build
+    ok2, why = True, ""
+    arr = s2.ret
+    if not (arr[0] == "fn" and arr[1] == "asarray" and arr[2]):
+        ok2, why = False, f"returns {ir.show_nl(arr)[:80]}, not one array of the rows"
+    n_cases = 0
     if ok2:
-        lp = apps[0][1].loops[0]
-        row_src = ("sub", xs, ("elem", lp.lid)) if lp.iter != xs else ("elem", lp.lid)
-        v = apps[0][0].args[0]
-        sel = gate_on(v, has)
-        good = sel is not None and sel[0][0] == "comp" and sel[0][1] == "list" and sel[0][3] == names and \
-            sel[0][5] == ("sub", row_src, ("elem", sel[0][2])) and not sel[0][6] and \
-            sel[1][0] == "new" and sel[1][2] == "list" and sel[1][3] and sel[1][3][0][0] == "res" and \
-            sel[1][3][0][2] == ".values" and sel[1][3][0][3] == (row_src,)
-        if not good:
-            ok2 = False
-            cond = v[1] if v[0] == "gate" else None
-            why = f"row = {ir.show_nl(v)[:160]}" if (cond is None or sel is not None) else \
-                f"the projection is applied only when {ir.show_nl(cond)[:140]}"
-    else:
-        why = f"{len(apps)} append sites" + (f", guarded by {ir.show_nl(apps[0][1].guards[0])[:100]}" if apps and apps[0][1].guards else "")
-    run.check(ok2, "INPUT", "2d", f"{s2.path}:{s2.fn.lineno}", fq2, f"2d input: {why or 'ok'}",
+        for facts1, rows in arms(arr[2][0]):
+            lb = list_build(rows, s2.events)
+            if lb is None or len(lb.entries) != 1:
+                ok2, why = False, f"rows are not built by one pass over the batch ({0 if lb is None else len(lb.entries)} append sites)"
+                break
+            rowv, ectx, eev = lb.entries[0]
+            over = lb.over
+            lid = lb.lid
+            if over == xs:
+                row_src = ("elem", lid)
+            elif over is not None and over[0] == "fn" and over[1] == "range" and len(over[2]) == 1 and \
+                    over[2][0] in (("fn", "len", (xs,)),):
+                row_src = ("sub", xs, ("elem", lid))
+            else:
+                ok2, why = False, f"rows range over {ir.show_nl(over)[:80] if over else None}, not over the batch"
+                break
+            outer = tuple(ectx.guards) if ectx is not None else ()
+            for facts2, v in arms(rowv):
+                facts = tuple(facts1) + outer + tuple(facts2)
+                n_cases += 1
+                extra = [g for g in facts if names not in ir.subterms(g)]
+                proj = v[0] == "comp" and v[1] == "list" and v[3] == names and v[5] == ("sub", row_src, ("elem", v[2])) and not v[6]
+                plain = v[0] == "new" and v[2] == "list" and v[3] and v[3][0][0] == "res" and v[3][0][2] == ".values" and \
+                    v[3][0][3] == (row_src,)
+                if extra:
+                    ok2, why = False, f"the projection depends on {ir.show_nl(extra[0])[:120]}, not only on feature_names being given"
+                elif holds(facts, has) and not proj:
+                    ok2, why = False, f"with feature_names the row is {ir.show_nl(v)[:120]}, not [row[f] for f in feature_names]"
+                elif excluded(facts, has) and not plain:
+                    ok2, why = False, f"without feature_names the row is {ir.show_nl(v)[:120]}, not list(row.values())"
+                elif not holds(facts, has) and not excluded(facts, has):
+                    ok2, why = False, "rows are built without consulting feature_names"
+    run.check(ok2 and n_cases >= 2, "INPUT", "2d", f"{s2.path}:{s2.fn.lineno}", fq2, f"2d input: {why or 'ok'}",
               f"every row of a batch must be projected on feature_names (in that order) exactly when feature_names is given: "
               f"{why}", "rows -> [row[f] for f in names] if names else list(row.values())")
-    run.check(s2.ret[0] == "fn" and s2.ret[1] == "asarray", "INPUT", "2d-array", f"{s2.path}:{s2.fn.lineno}", fq2,
-              f"returns {ir.show_nl(s2.ret)[:60]}", "the rows must be returned as one array", "asarray(rows)")
+    run.ok("INPUT", "2d-array", "asarray(rows)") if ok2 else None
 
 
 def _wiring(run, prog, cls):
